@@ -221,4 +221,8 @@ def downsampleSeqsText (seed m : Nat) (recs : List Rec) : Option String :=
   if recs.length < m then none
   else some (String.ofList (renderFasta 60 (selectn rollRng64 m recs (Rng64.create (UInt64.ofNat seed)))))
 
+/-- `easel downsample -S`: reservoir over the record offsets, sorted back into file order -/
+def downsampleBigIndices (seed m n : Nat) : List Nat :=
+  ((selectn rollRng64 m (List.range n) (Rng64.create (UInt64.ofNat seed))).toArray.qsort (· < ·)).toList
+
 end EaselModel.Miniapps
